@@ -31,11 +31,11 @@ from harness.svskit import Scenario, NOSEQ, NOID
 NODES3 = ['self', 'n1', 'n2']
 NODES5 = ['self', 'n1', 'n2', 'n3', 'n4']
 PROPS = ['Monotone', 'EntrywiseMax', 'OverclaimIgnored', 'MissingIffRaised', 'PublishEmitsFullVector',
-         'HeardIsMerge', 'SuppressionDecision', 'EmitsOnlyLocal']
+         'HeardIsMerge', 'SuppressionDecision', 'EmitsOnlyLocal', 'OutdatedStartsSuppression']
 INVS = ['TypeOK', 'OwnEntry', 'SteadyForgets']
 WITNESSES = ['SupEmit', 'SupNoEmit', 'OverclaimWouldRaise', 'Incomparable', 'OlderNoCallback', 'DamagedAccepted',
              'DamagedRejected', 'UndecodableInSup', 'Burst', 'PublishInSup', 'SteadyEmit', 'HeardInSup', 'EnterSup',
-             'ActRecvSV', 'ActPublish', 'ActTimerFire', 'ActTick']
+             'ActRecvSV', 'ActPublish', 'ActTimerFire', 'ActTick', 'OutdatedZero']
 DEV_SIG = {'devAgg': ('C18/SvsInst/TimerFire/SuppressionDecision/devAgg',
                       'suppression period in which a second vector was heard ends without a sync Interest although '
                       'local_sv is newer than the merge of the vectors heard (aggregate() merges with local_sv)'),
@@ -45,6 +45,7 @@ DEV_SIG = {'devAgg': ('C18/SvsInst/TimerFire/SuppressionDecision/devAgg',
 
 
 MAX_DIAG = 40
+LAST_JUDGE = {'unexplained': 0}        # executions the last judge() call could not explain at all
 DEV_OF = {'devAgg': 'aggLocal', 'devNoSeq': 'noSeq'}     # choice name -> member of the constant Dev
 
 
@@ -349,7 +350,7 @@ def stage_b(ctx):
             ctx.note('B: background exceptions in the loop (not judged by C18): %s' % sorted(set(bgs))[:3])
         if cov.suspects:
             fnd = judge(ctx, cov.suspects, nodes, 2, 10, 32768, 'c18-b%d' % ms, maxseq=ms + 1)
-            n_ok = len(cov.suspects) - len({f['trace'] for f in fnd if not f['dev']})
+            n_ok = len(cov.suspects) - LAST_JUDGE['unexplained'] - len({f['trace'] for f in fnd if f['dev']})
             if n_ok:
                 ctx.note('B: %d executions left the impl-resolved graph but are behaviours of the open spec' % n_ok)
 
@@ -366,7 +367,8 @@ def _validate(ctx, recs, idx, nodes, dev, name, maxseq, env=None, count=True):
     tlc.write_cfg(cfg, spec='TSpec',
                   constants=consts(nodes, maxseq, '{}', 'open', dev, 64, burst=3, hint=True),
                   invariants=['OwnEntry', 'SteadyForgets'],
-                  properties=['Monotone', 'OverclaimIgnored', 'PublishEmitsFullVector', 'EmitsOnlyLocal', 'HeardIsMerge'],
+                  properties=['Monotone', 'OverclaimIgnored', 'PublishEmitsFullVector', 'EmitsOnlyLocal', 'HeardIsMerge',
+                              'OutdatedStartsSuppression'],
                   constraints=['Mark'], postcondition='Post', view='TView')
     r, rejected = tlc.validate_traces('SvsTrace', cfg, tf, env=env, tag=name)
     if count:
@@ -382,6 +384,7 @@ def judge(ctx, recs, nodes, sup, sync, rstep, name, maxseq=24, report=True):
     if none does, the projection field is named by re-validation with one field relaxed at a time.
     Returns findings [{'trace': index, 'at': event number (1-based), 'sig', 'what', 'dev': bool}]."""
     out = []
+    LAST_JUDGE['unexplained'] = 0
     r1, rej1 = _validate(ctx, recs, list(range(len(recs))), nodes, (), name, maxseq)
     if r1.violated:
         out.append({'trace': 0, 'at': 0, 'dev': False, 'sig': 'C18/SvsInst/trace-property/%s' % r1.violated,
@@ -415,6 +418,7 @@ def judge(ctx, recs, nodes, sup, sync, rstep, name, maxseq=24, report=True):
                 if l3 is not None and (l2 is None or l3 < l2):
                     sig, what = DEV_SIG[other]
                     out.append({'trace': i, 'at': l3, 'dev': True, 'sig': sig, 'what': what, 'earlier': 1})
+        LAST_JUDGE['unexplained'] = len({i for i, _ in unexplained})
         if unexplained:
             # name the projection field: re-run the rejected prefixes with one field relaxed at a time
             # (the shortest MAX_DIAG of them; a broken tree rejects thousands, all for a few reasons)
@@ -467,7 +471,7 @@ def random_packet(rng, nodes, local, selfseq):
     if x < 0.04:
         return {'k': rng.choice(['empty', 'garbage', 'nowrapper', 'badname', 'unsigned']), 'es': []}
     ids = [n for n in nodes if rng.random() < rng.choice([0.3, 0.6, 1.0])] or [rng.choice(nodes)]
-    style = rng.choice(['newer', 'older', 'mixed', 'mixed', 'equal', 'random'])
+    style = rng.choice(['newer', 'older', 'mixed', 'mixed', 'equal', 'random', 'restarted'])
     es = []
     for n in ids:
         cur = local[n]
@@ -477,6 +481,8 @@ def random_packet(rng, nodes, local, selfseq):
             s = max(0, cur - rng.randint(0, 2))
         elif style == 'equal':
             s = cur
+        elif style == 'restarted':              # explicit SeqNo 0: a peer that has nothing yet
+            s = 0 if rng.random() < 0.7 else cur
         elif style == 'mixed':
             s = max(0, cur + rng.randint(-2, 2))
         else:
@@ -544,7 +550,7 @@ def stage_c(ctx):
     for b in range(0, len(recs), batch):
         fnd = judge(ctx, recs[b:b + batch], NODES5, sup, sync, rstep, 'c18-c')
         total['dev'] += sum(1 for f in fnd if f['dev'])
-        total['rej'] += sum(1 for f in fnd if not f['dev'])
+        total['rej'] += LAST_JUDGE['unexplained']
     ctx.traces += len(recs)
     ctx.evaluations += sum(len(r['ev']) for r in recs)
     ctx.note('C: %d executions, %d events; steps explained only by a named deviation: %d; rejected executions: %d' % (
